@@ -203,6 +203,13 @@ Definition walk_bound (c : cfg) (b : list obj) : nat :=
   | V2 => ((1 + total_delims (c_delim c) b) * (List.length b + 2)) * (c_max c + 2) + 1
   end.
 
+(* the same bound in binary numbers (harness monitor; equality proved in S3Proofs.v) *)
+Definition walk_bound_N (c : cfg) (b : list obj) : N :=
+  match c_api c with
+  | V1 => (N.of_nat (List.length b) + 1) * 2 + 1
+  | V2 => ((1 + N.of_nat (total_delims (c_delim c) b)) * (N.of_nat (List.length b) + 2)) * (N.of_nat (c_max c) + 2) + 1
+  end%N.
+
 (* strictly increasing keys *)
 Fixpoint sorted_keysb (b : list obj) : bool :=
   match b with
